@@ -358,7 +358,11 @@ def outcome_equal(native, expect):
     if native.get("k") != expect.get("k"):
         return False
     if expect.get("k") == "exc":
-        return native.get("cls") == expect.get("cls")
+        if native.get("cls") == expect.get("cls"):
+            return True
+        # known imprecision of the unhexlify model: a non-hex character raises binascii.Error, but CPython raises the parent class
+        # ValueError when the offending character of a str is not ASCII (no code of the repository distinguishes the two)
+        return expect.get("cls") == "binascii.Error" and native.get("cls") == "ValueError"
     return canon_equal(native.get("v"), expect.get("v"), bool(expect.get("inexact")))
 
 
